@@ -5,7 +5,7 @@ import io
 import re
 from fractions import Fraction
 from .. import spec
-from ..gen import fmt_date_layout, G, Qty, WINDOW
+from ..gen import fmt_date_layout, G, Qty, WINDOW, LAYOUTS
 from ..common import run_apps, app, out_of, sig
 from ..core import unhx
 
@@ -94,6 +94,8 @@ def gen(g, count):
         if r.random() < 0.4:
             period['end'] = r.choice(WINDOW[:5]).strftime('%Y/%m/%d')
         x = r.choice(leaves)
+        if r.random() < 0.1 and recs:
+            x = r.choice(recs)          # the element asked for is itself a recipe of the book (and a logged food): it contributes its elements, not itself
         day = r.choice(log)[0]
         grp = {}
         def add(key, path, args=(), s=None, periodic=True, disk=False):
@@ -258,10 +260,10 @@ def stats_distances(ctx, g):
     """the `(N days ago)` figures of stats are distances in calendar days, also across century years and leap days, also when the
     record lies after the current date"""
     r = g.r
-    L = '2006/01/02'
     cases = []
     for _ in range(40 if ctx.tier == 'quick' else 200):
         first, last, today = (datetime.date(*r.choice(FAR)) for _ in range(3))
+        L = r.choice(LAYOUTS) if r.random() < 0.4 else '2006/01/02'          # also layouts with single-digit days and months
         tz = 'UTC'
         if r.random() < 0.4:
             # a span across a daylight-saving switch of the process zone is still a whole number of days
@@ -269,8 +271,11 @@ def stats_distances(ctx, g):
                                                             (2021, 11, 1), (2021, 11, 6), (2021, 11, 8), (2021, 11, 10), (2021, 4, 3), (2021, 4, 5), (2021, 10, 2), (2021, 10, 4)])) for _ in range(3))
             tz = r.choice(['America/New_York', 'America/Los_Angeles', 'Europe/Berlin', 'Australia/Lord_Howe', 'Asia/Tokyo', 'Pacific/Kiritimati', 'Pacific/Pago_Pago'])
         files = {b'food.yaml': b'', b'log.yaml': ('%s:\n  a: 1\n%s:\n  b: 2\n' % (fmt_date_layout(first, L), fmt_date_layout(last, L))).encode()}
-        c = app(['stats'], files, g={'today': fmt_date_layout(today, L), 'noColor': True}, kind='stats distances', disk=True, tz=tz, today_date=today)
-        c.meta.update({'first': first, 'last': last, 'today': today})
+        gopt = {'today': fmt_date_layout(today, L), 'noColor': True}
+        if L != '2006/01/02':
+            gopt['dateFormat'] = L
+        c = app(['stats'], files, g=gopt, kind='stats distances', disk=True, tz=tz, today_date=today)
+        c.meta.update({'first': first, 'last': last, 'today': today, 'L': L})
         cases.append(c)
     impl, model = run_apps(ctx, cases)
     for c in cases:
@@ -278,6 +283,7 @@ def stats_distances(ctx, g):
         def dist(d):
             n = (c.meta['today'] - d).days
             return max(-MAXDAYS, min(MAXDAYS, n))
+        L = c.meta['L']
         exp = ['  First record:       %s (%d days ago)' % (fmt_date_layout(c.meta['first'], L), dist(c.meta['first'])),
                '  Last record:        %s (%d days ago)' % (fmt_date_layout(c.meta['last'], L), dist(c.meta['last']))]
         if impl[c.id].get('status') != 'ok' or not all(l in st for l in exp):
